@@ -356,6 +356,11 @@ func (dr *dirRepo) blobMeta(d digest.Digest, locked bool) (blobMeta, error) {
 
 // BlobCreate is used to create a new blob.
 func (dr *dirRepo) BlobCreate(opts ...BlobOpt) (BlobCreator, string, error) {
+	return dr.blobCreate(false, opts...)
+}
+
+// blobCreate is the internal method for creating a blob, locked indicates the caller holds the repo lock.
+func (dr *dirRepo) blobCreate(locked bool, opts ...BlobOpt) (BlobCreator, string, error) {
 	if *dr.conf.Storage.ReadOnly {
 		return nil, "", types.ErrReadOnly
 	}
@@ -369,7 +374,7 @@ func (dr *dirRepo) BlobCreate(opts ...BlobOpt) (BlobCreator, string, error) {
 		}
 	}
 	if !dr.exists {
-		err := dr.repoInit(false)
+		err := dr.repoInit(locked)
 		if err != nil {
 			return nil, "", err
 		}
@@ -384,14 +389,20 @@ func (dr *dirRepo) BlobCreate(opts ...BlobOpt) (BlobCreator, string, error) {
 			// the blob is being pushed again, it is as new as one that had to be uploaded: the grace period starts over
 			now := time.Now()
 			_ = os.Chtimes(filepath.Join(dr.path, blobsDir, conf.expect.Algorithm().String(), conf.expect.Encoded()), now, now)
-			dr.mu.Lock()
+			if !locked {
+				dr.mu.Lock()
+			}
 			dr.timeBlob = now
-			dr.mu.Unlock()
+			if !locked {
+				dr.mu.Unlock()
+			}
 			return nil, "", types.ErrBlobExists
 		}
 	}
-	dr.mu.Lock()
-	defer dr.mu.Unlock()
+	if !locked {
+		dr.mu.Lock()
+		defer dr.mu.Unlock()
+	}
 	sessionID, err := genSessionID()
 	if err != nil {
 		return nil, "", fmt.Errorf("failed generating sessionID: %w", err)
